@@ -35,7 +35,7 @@ Definition of_mod (m : N) (i : item) : bool :=
   match item_mod i with Some m' => m' =? m | None => false end.
 
 Lemma is_run_of_mod m i : is_run m i = true -> of_mod m i = true.
-Proof. destruct i as [m' c t a| | | | | | | | |]; try discriminate. destruct c; try discriminate; exact (fun H => H). Qed.
+Proof. destruct i as [m' c t a| | | | | | | | | |]; try discriminate. destruct c; try discriminate; exact (fun H => H). Qed.
 
 Lemma own_not_of_mod m1 m l : Own m1 l -> m1 <> m -> forallb (fun i => negb (of_mod m i)) l = true.
 Proof.
@@ -263,7 +263,7 @@ Proof.
                       if e then s2' else on_w (fun w0 => set_err w0 (w_err w0 ++ repeat (true, m) (N.to_nat (tpanics (w_mod w0 m)))))
                                                (poll_ready (nmods sc) now m s2')))).
   { intros p s Ls Rs. unfold catch. destruct p.
-    - destruct (c_catch (cfg sc m)); cbn [x_log on_w].
+    - destruct (catchf (w_mod (x_w s) m)); cbn [x_log on_w].
       + match goal with |- no_run m (x_log (poll_ready _ _ _ ?S)) => destruct (Hpoll S) as [P _] end.
         { wsimpl. rewrite N.eqb_refl. wsimpl. exact Rs. }
         rewrite P. cbn [x_log]. rewrite Ls. exact HL.
